@@ -218,7 +218,11 @@ func Unmarshal(data []byte, v any) error {
 		return err
 	}
 	if buf.Len() > 0 {
-		return fmt.Errorf("unmarshal did not consume all data, had extra %d bytes: % x", buf.Len(), buf.Bytes())
+		extra := buf.Bytes()
+		if len(extra) > 32 {
+			return fmt.Errorf("unmarshal did not consume all data, had extra %d bytes: % x...", len(extra), extra[:32])
+		}
+		return fmt.Errorf("unmarshal did not consume all data, had extra %d bytes: % x", len(extra), extra)
 	}
 	return nil
 }
